@@ -45,7 +45,7 @@ TT = 'chainables.tree'
 
 
 def run(ctx: Ctx):
-  for r in (r1, r2, r3, r4):
+  for r in (r1, r2, r3, r4, r5, r6):
     ctx.guard(r)
 
 
@@ -379,11 +379,126 @@ def r4(ctx: Ctx):
   ctx.floor(rule, 6)
 
 
+def r5(ctx: Ctx):
+  rule = 'R-C02-5'
+  ctx.rule(rule, 'slices do not inherit each other\'s mask configuration: when'
+           ' the per-slice function is derived from the previously masked one'
+           ' (`f = f.with_masks(...)` inside the slicer loops), with_masks must'
+           ' be a total override — every return path rebuilds the function'
+           ' with masks AND replace_mask_false_with taken from its own'
+           ' parameters')
+  from mlmverif import pat
+  up = ctx.repo.func(TR, 'TransformRunner.update_state')
+  chained = [n for n, b in pat.search(up.node, '$f = $f.with_masks(___)')]
+  derived = [n for n, b in pat.search(up.node, '$g = $f.with_masks(___)')]
+  if not derived:
+    raise AnalysisError(f'{rule}: update_state does not mask the aggregate function per slice')
+  wm = ctx.repo.func(TF, 'TreeFn.with_masks')
+  ps = wm.params()[1:]
+  if len(ps) != 2:
+    raise AnalysisError(f'{rule}: with_masks has parameters {ps}')
+  p_masks, p_repl = ps
+  if not chained:
+    ctx.ok(rule, up, 'per-slice function derived from the loop-invariant aggregate function',
+           derived[0])
+    ctx.floor(rule, 1)
+    return
+  ctx.ok(rule, up, f'chained derivation `{unparse(chained[0])[:60]}`: total override required',
+         chained[0])
+  rets = [x for x in walk_no_nested(wm.node) if isinstance(x, ast.Return)]
+  if not rets:
+    raise AnalysisError(f'{rule}: with_masks has no return')
+  for r_ in rets:
+    v = r_.value
+    got = {}
+    if isinstance(v, ast.Call) and unparse(v.func) in ('dc.replace', 'dataclasses.replace') and (
+        v.args and unparse(v.args[0]) == 'self'):
+      got = {k.arg: unparse(k.value) for k in v.keywords if k.arg}
+    elif isinstance(v, ast.Call):
+      raise AnalysisError(f'{rule}: unsupported construction `{unparse(v)[:50]}` in with_masks')
+    missing = [f for f, p_ in (('masks', p_masks), ('replace_mask_false_with', p_repl))
+               if got.get(f) != p_]
+    if missing:
+      ctx.fail(rule, wm, r_,
+               f'with_masks returns `{unparse(v)[:70]}` which keeps the receiver\'s'
+               f' {missing}: update_state derives each slice\'s function from the'
+               ' previous slice\'s masked function, so a slicer inherits the'
+               ' previous slicer\'s replacement value / masks and aggregates'
+               ' rows that do not belong to its slice')
+    else:
+      ctx.ok(rule, wm, f'return overrides masks and replace value from the parameters', r_)
+  ctx.floor(rule, 2)
+
+
+def r6(ctx: Ctx):
+  rule = 'R-C02-6'
+  ctx.rule(rule, 'no slice key dropped on restore/continue: the iterator\'s'
+           ' aggregate state is built from EVERY entry of the state it is'
+           ' given (unsliced and per-slice keys), filtered only by whether'
+           ' the entry\'s metric belongs to the runner')
+  fi = ctx.repo.func(TR, '_RunnerIterator.__init__')
+  sp = 'state'
+  if sp not in fi.params():
+    raise AnalysisError(f'{rule}: _RunnerIterator.__init__ has no `state` parameter')
+  asg = [x for x in walk_no_nested(fi.node) if isinstance(x, ast.Assign)
+         and any(is_self_attr(t, 'agg_state') for t in x.targets)]
+  if len(asg) != 1:
+    raise AnalysisError(f'{rule}: expected one store to self.agg_state, found {len(asg)}')
+  v = asg[0].value
+  ok = None
+  why = ''
+  if isinstance(v, ast.DictComp) and len(v.generators) == 1:
+    gen = v.generators[0]
+    it = unparse(gen.iter)
+    if it == f'{sp}.items()' and isinstance(gen.target, ast.Tuple) and len(gen.target.elts) == 2:
+      kn, vn = (unparse(e) for e in gen.target.elts)
+      if unparse(v.key) == kn and unparse(v.value) == vn:
+        conds = [unparse(c) for c in gen.ifs]
+        bad = [c for c in conds if not (c.startswith(f'{kn}.metrics in ') or c.startswith(
+            f'{kn}.metrics not in '))]
+        if bad:
+          ok, why = False, f'entries are additionally filtered by `{bad[0]}`'
+        else:
+          ok = True
+      else:
+        ok, why = False, f'entries are re-keyed/re-valued as {unparse(v.key)}: {unparse(v.value)[:40]}'
+    else:
+      ok, why = False, (f'the keys are drawn from `{it[:50]}` and not from the given state:'
+                        ' per-slice entries of the given state are lost')
+  elif unparse(v) in (f'dict({sp})', f'{sp}.copy()', f'{{**{sp}}}', sp):
+    ok = True
+  if ok is None:
+    raise AnalysisError(f'{rule}: unsupported construction of agg_state `{unparse(v)[:60]}`')
+  if ok:
+    ctx.ok(rule, fi, f'agg_state keeps every runner entry of `{sp}`', asg[0])
+  else:
+    ctx.fail(rule, fi, asg[0],
+             f'_RunnerIterator builds its aggregate state so that {why}: slice'
+             ' keys present in the incoming state (slices seen only in earlier'
+             ' batches) are dropped or reset')
+  ctx.floor(rule, 1)
+
+
 from mlmverif.selfcheck import B, OK  # noqa: E402
 
 _T = 'chainables/transform.py'
 _F = 'chainables/tree_fns.py'
 VARIANTS = [
+    B('with-masks-keeps-replacement', _F,
+      '    \"\"\"Returns a new TreeFn with the masks.\"\"\"\n',
+      '    \"\"\"Returns a new TreeFn with the masks.\"\"\"\n    if replace_mask_false_with == tree.DEFAULT_FILTER:\n      return dc.replace(self, masks=masks)\n',
+      'R-C02-5'),
+    OK('with-masks-kept-but-unchained', _F,
+       '    \"\"\"Returns a new TreeFn with the masks.\"\"\"\n',
+       '    \"\"\"Returns a new TreeFn with the masks.\"\"\"\n    if replace_mask_false_with == tree.DEFAULT_FILTER:\n      return dc.replace(self, masks=masks)\n',
+       extra=((_T, '            tree_agg_fn = tree_agg_fn.with_masks(\n                masks,\n                replace_mask_false_with=slicer.replace_mask_false_with,\n            )\n            state[metric_key] = tree_agg_fn.update_state(',
+               '            masked_fn = tree_agg_fn.with_masks(\n                masks,\n                replace_mask_false_with=slicer.replace_mask_false_with,\n            )\n            state[metric_key] = masked_fn.update_state('),)),
+    B('restore-state-from-create-state-keys', _T,
+      '        k: v for k, v in state.items() if k.metrics in self._runner.agg_fns\n',
+      '        k: state.get(k, v) for k, v in self._runner.create_state().items()\n', 'R-C02-6'),
+    B('restore-state-unsliced-only', _T,
+      '        k: v for k, v in state.items() if k.metrics in self._runner.agg_fns\n',
+      '        k: v for k, v in state.items() if k.metrics in self._runner.agg_fns if not k.slice\n', 'R-C02-6'),
     B('unsliced-after-masking', _T,
       '        state[MetricKey(output_key)] = tree_agg_fn.update_state(\n            state[MetricKey(output_key)], inputs\n        )\n        if tree_agg_fn.disable_slicing:\n          continue\n',
       '        if tree_agg_fn.disable_slicing:\n          continue\n', 'R-C02-1'),
